@@ -473,6 +473,7 @@ func hashCase(r *Rng, ls [][]byte, ha uint8, iter uint16, salt string, emit bool
 	case <-time.After(60 * time.Second):
 		Viol("C17/HashName/does-not-terminate", fmt.Sprintf("HashName with %d iterations did not return within 60 s", iter), in)
 		Stat(st)
+		Flush()
 		os.Exit(0) // the call is still spinning: report what was found and stop
 	}
 	sb, sok := saltBytes(salt)
